@@ -7,28 +7,34 @@ props = sys.argv[3:]
 wt = "/tmp/mut/%s" % ID
 out = "/tmp/mut/%s-out" % ID
 diff = os.path.join(out, "change%s.diff" % n)
+if os.path.exists(os.path.join(out, "change%s.rebased.diff" % n)):
+    diff = os.path.join(out, "change%s.rebased.diff" % n)  # the same change, re-applied by hand on the current /repo HEAD
+    res_rebased = True
 demo = os.path.join(out, "demo%s_test.go" % n)
 env = dict(os.environ, GOFLAGS="-mod=mod", GOPROXY="off")
 env.pop("GOTOOLCHAIN", None); env.pop("GOSUMDB", None)
 def sh(cmd, cwd=None, timeout=1800):
     r = subprocess.run(cmd, cwd=cwd, env=env, shell=isinstance(cmd, str), stdout=subprocess.PIPE, stderr=subprocess.STDOUT, text=True, timeout=timeout)
     return r.returncode, r.stdout
-res = {"id": ID, "change": n}
+res = {"id": ID, "change": n, "rebased": os.path.basename(diff)}
 if not os.path.isdir(wt):
     sh("git -C /repo worktree add -q --detach %s HEAD" % wt)
 sh("git checkout -q -- . && git clean -fdq", cwd=wt)
 sh("git checkout -q --detach %s" % subprocess.run("git -C /repo rev-parse HEAD", shell=True, stdout=subprocess.PIPE, text=True).stdout.strip(), cwd=wt)
-demo_dst = os.path.join(wt, "zz_demo_%s_test.go" % n)
+ddir = "."
+if os.path.exists(os.path.join(out, "demo%s.dir" % n)):
+    ddir = open(os.path.join(out, "demo%s.dir" % n)).read().strip() or "."
+demo_dst = os.path.join(wt, ddir, "zz_demo_%s_test.go" % n)
 shutil.copy(demo, demo_dst)
 pkg = re.search(r"^package (\w+)", open(demo).read(), re.M).group(1)
 tests = "|".join(re.findall(r"^func (Test\w+)", open(demo).read(), re.M))
-rc, o = sh(["go", "test", "-count=1", "-run", "^(%s)$" % tests, "."], cwd=wt)
+rc, o = sh(["go", "test", "-count=1", "-run", "^(%s)$" % tests, "."], cwd=os.path.join(wt, ddir))
 res["demo_without_change_passes"] = rc == 0
 if rc != 0: res["demo_without_log"] = o[-1500:]
 rc, o = sh(["git", "apply", diff], cwd=wt)
 res["applies_to_head"] = rc == 0
 if rc == 0:
-    rc, o = sh(["go", "test", "-count=1", "-run", "^(%s)$" % tests, "."], cwd=wt)
+    rc, o = sh(["go", "test", "-count=1", "-run", "^(%s)$" % tests, "."], cwd=os.path.join(wt, ddir))
     res["demo_with_change_fails"] = rc != 0
     os.remove(demo_dst)
     ok = True
